@@ -259,6 +259,10 @@ class Ctx:
         """One obligation: hyps + axioms(cone) + not goal  must be `expect`.
         replay(model_values: dict) -> (reproduced: bool, detail: dict) for unexpected sat."""
         full = "%s/%s" % (self.case, name)
+        if kind == "property" and (" raises NotImplementedError" in name or " raises Z3Exception" in name):
+            # a path that ended in an engine limitation is not a statement about the code under test
+            self.inconclusive.append("%s: not encodable (engine limitation on this path)" % full)
+            return "unknown", None
         if replay is not None and kind == "property":
             self.fallback = replay       # the most recent replay also serves if the symbolic run raises later on
         hyps = list(hyps) + list(extra_axioms)
